@@ -5,6 +5,7 @@ import (
 	"errors"
 	"fmt"
 	"io"
+	"net/http"
 	"strings"
 	"testing"
 	"testing/synctest"
@@ -43,10 +44,120 @@ type c14TypedCase struct {
 	// http.NewRequestWithContext rejects (a fragment with a bad escape), so no
 	// request can ever be made.
 	URL string `json:"url,omitempty"`
+	// Cancel: "at-last-request-byte": the caller's context is cancelled while the
+	// transport is taking the last byte of the request message (the Send still
+	// succeeds, finishing the request then fails), and the HTTPClient returns a
+	// response all the same, as the contract allows: whoever returns the call
+	// to the caller without a stream has to close that body.
+	Cancel string `json:"cancel,omitempty"`
+}
+
+// lastByteClient is a connect.HTTPClient that cancels the call's context
+// between the last two bytes of a request of n bytes and then answers 200 with
+// an empty body of the request's content type.
+type lastByteClient struct {
+	n      int
+	cancel func()
+	mu     chan struct{}
+	got    bool
+	closes int
+}
+
+type countingBody struct{ c *lastByteClient }
+
+func (b countingBody) Read([]byte) (int, error) { return 0, io.EOF }
+func (b countingBody) Close() error {
+	b.c.mu <- struct{}{}
+	b.c.closes++
+	<-b.c.mu
+	return nil
+}
+
+func (l *lastByteClient) Do(req *http.Request) (*http.Response, error) {
+	one := make([]byte, 1)
+	for i := 0; i < l.n-1; i++ {
+		if _, err := io.ReadFull(req.Body, one); err != nil {
+			return nil, err
+		}
+	}
+	l.cancel()
+	if _, err := io.ReadFull(req.Body, one); err != nil {
+		return nil, err
+	}
+	l.mu <- struct{}{}
+	l.got = true
+	<-l.mu
+	return &http.Response{
+		StatusCode: 200, Status: "200 OK", Proto: "HTTP/2.0", ProtoMajor: 2,
+		Header:  http.Header{"Content-Type": {req.Header.Get("Content-Type")}},
+		Trailer: http.Header{}, Body: countingBody{l}, ContentLength: -1, Request: req,
+	}, nil
+}
+
+func c14TypedLastByte(c *ev.Collector, k c14TypedCase) {
+	n := 9 // envelope prefix + the 4 bytes of the request message
+	if k.Proto == PConnect && k.Kind == KUnary {
+		n = 4
+	}
+	ctx, cancel := context.WithCancel(context.Background())
+	defer cancel()
+	lb := &lastByteClient{n: n, cancel: cancel, mu: make(chan struct{}, 1)}
+	cl := connect.NewClient[BV, BV](lb, BaseURL+Procedure, Cfg{Proto: k.Proto, Comp: CompNone}.ClientOptions()...)
+	var callErr error
+	gotStream := false
+	g := Guarded(func() {
+		msg := &BV{Value: []byte{'c', 0}}
+		switch k.Kind {
+		case KUnary:
+			_, callErr = cl.CallUnary(ctx, connect.NewRequest(msg))
+		case KClient:
+			s := cl.CallClientStream(ctx)
+			_ = s.Send(msg)
+			_, callErr = s.CloseAndReceive()
+		case KServer:
+			s, err := cl.CallServerStream(ctx, connect.NewRequest(msg))
+			callErr = err
+			if err == nil {
+				gotStream = true
+				for s.Receive() {
+				}
+				callErr = s.Err()
+				_ = s.Close()
+			}
+		}
+	})
+	tags := []string{"proto=" + k.Proto.String(), "kind=" + k.Kind.String(), "typed-api", "cancel-at-last-request-byte"}
+	viol := func(clause, outcome, format string, args ...any) {
+		c.Violation("TestC14", clause, outcome, tags, k, "%s: "+format, append([]any{k.key()}, args...)...)
+	}
+	c.AddTransitions(4)
+	c.AddStates(4)
+	c.AddTraces(1)
+	if g.Panicked || g.Hung {
+		viol("terminates", "deadlock", "hung=%v panic=%v\n%s", g.Hung, g.Panic, trimStacks(g.Stack))
+		c.Outcome("violation")
+		BailIfStuck(c, g)
+		return
+	}
+	synctest.Wait()
+	bad := false
+	if lb.got && lb.closes == 0 {
+		bad = true
+		viol("body-closed", "not-closed", "the call returned (err=%v, stream handed out: %v); the HTTPClient had returned a response and its body was never closed", callErr, gotStream)
+	}
+	if grs := bsched.LibraryGoroutines(); len(grs) > 0 {
+		bad = true
+		viol("no-goroutine-left", "leak", "the call returned (err=%v) and a goroutine of the library remains\n%s", callErr, trimStacks(grs[0]))
+	}
+	if bad {
+		c.Outcome("violation")
+	} else {
+		c.Outcome("ok")
+	}
 }
 
 func (k c14TypedCase) key() string {
-	return fmt.Sprintf("typed/%s/h%d/%s/%s/take%d/%s%s", k.Proto, k.HTTP, k.Kind, k.Handler, k.Take, k.Codec, k.URL)
+	return fmt.Sprintf("typed/%s/h%d/%s/%s/take%d/%s%s%s", k.Proto, k.HTTP, k.Kind, k.Handler, k.Take, k.Codec, k.URL, k.Cancel)
 }
 
 // markerCodec is the binary codec except that it refuses to marshal the
@@ -71,6 +182,10 @@ func (markerCodec) Unmarshal(b []byte, m any) error {
 }
 
 func c14TypedCheck(c *ev.Collector, k c14TypedCase) {
+	if k.Cancel == "at-last-request-byte" {
+		c14TypedLastByte(c, k)
+		return
+	}
 	var n int
 	fails := strings.HasPrefix(k.Handler, "err")
 	fmt.Sscanf(strings.TrimLeft(k.Handler, "oker"), "%d", &n)
@@ -223,6 +338,12 @@ func c14TypedCases() []c14TypedCase {
 	for _, p := range AllProtos {
 		for _, kind := range AllKinds {
 			out = append(out, c14TypedCase{Typed: true, Proto: p, HTTP: 2, Kind: kind, Handler: "ok1", Take: -1, URL: "bad-fragment"})
+		}
+	}
+	// the context ends while the transport takes the last byte of the request; a response arrives all the same
+	for _, p := range AllProtos {
+		for _, kind := range []Kind{KUnary, KClient, KServer} {
+			out = append(out, c14TypedCase{Typed: true, Proto: p, HTTP: 2, Kind: kind, Handler: "ok0", Take: -1, Cancel: "at-last-request-byte"})
 		}
 	}
 	return out
